@@ -16,7 +16,7 @@ import os
 
 from hypothesis import strategies as st
 
-from ..outcome import exc_bucket, fail, passed
+from ..outcome import fail, passed
 
 ID = 'C13'
 LEVEL = 'exploration'
@@ -25,28 +25,39 @@ CASE_TIMEOUT = 30
 TECHNIQUE = ('property-based testing (Hypothesis): generated rich model specs built through the public API; round '
              'trip through to_dict/json/from_dict, write_json/read_json and append; field-wise dictionary diff with '
              'one bucket per lost/changed attribute')
-RULE = ('Generated spec: 2-5 junctions (0-3 demands with pattern/category, emitter, initial quality, per-junction '
-        'PDD fields, tag, leak with/without start/end, fire-fighting demand, custom attribute), 0-2 tanks (volume '
-        'curve, overflow, mixing model/fraction, bulk coefficient, leak), 0-2 reservoirs (head pattern), 0-4 pipes '
-        '(CV, status, minor loss, bulk/wall coefficient, vertices, tag, initial quality), 0-2 pumps (HEAD/POWER, speed '
-        '+ pattern, efficiency curve, energy price/pattern, initial setting, outage rule), 0-3 valves of all six types '
-        '(GPV with headloss curve), 0-3 patterns (wrap on/off), curves of all four types, 0-2 sources of all four '
-        'types, 0-4 controls (time, clock time, tank level / junction pressure; actions on status, setting, '
-        'base_speed) and rules (AND/OR, nested, ELSE, PRIORITY), 0-8 option overrides out of all eight option '
-        'sections, three naming styles. Each case draws a sparse or a rich feature mask so that single features '
-        'appear alone as well as combined; 70 enumerated single-feature models are always run. Non-trivial = the '
-        'model carries at least one non-default feature (feature tag) and the JSON text differs from the empty '
-        'model; distinct = SHA-1 of the spec.')
+RULE = ('Generated spec: 2-4 junctions (thorough 2-6; 0-3 demands with pattern/category, emitter, initial quality, '
+        'per-junction PDD fields, tag, leak with/without start/end, fire-fighting demand, custom attribute), 0-2 tanks '
+        '(volume curve, overflow, min volume, mixing model/fraction, bulk coefficient, leak with/without start/end), '
+        '0-2 reservoirs (head pattern), 0-5 links (thorough 0-8): pipes (CV, status, minor loss, bulk/wall '
+        'coefficient, vertices, tag, initial quality), pumps (HEAD/POWER, speed + pattern, efficiency curve, energy '
+        'price/pattern, initial setting, outage rule), valves of all six types (GPV with headloss curve); 0-3 patterns '
+        '(wrap on/off), 0-5 curves of the four types, 0-2 sources of the four types, 0-4 controls (AT TIME, AT '
+        'CLOCKTIME, IF tank level / junction pressure; actions on status, setting, base_speed) and rules (six '
+        'relations, AND/OR up to depth 2 on either side, ELSE, several actions, PRIORITY), 0-8 option overrides out of '
+        'all eight option sections, three naming styles (typed, purely numeric with node/link name collisions, mixed '
+        'case with punctuation). One case in four is first written to and re-read from an INP file, so that the model '
+        'under test is in the state the INP reader leaves. Each case draws a sparse (0-4 features) or a rich feature '
+        'mask so that features appear alone as well as combined. Enumerated part (always run): every INP file shipped '
+        'with the tree (tests + examples; Net6 only in the thorough tier), 70 single-feature variants of a 5-node '
+        'model, each of the 147 listed option values alone, 28 single controls/rules, and two all-features models. '
+        'Non-trivial = '
+        'the model carries at least one feature tag other than the naming style; distinct = SHA-1 of the spec.')
 ASSUMPTIONS = [
     'dictionary equality after json.loads(json.dumps(.)) of both sides (tuples -> lists), "" == None for pattern-name '
     'fields, and a junction with an empty demand list may come back with exactly one demand of base value 0 '
-    '(the three normalisations named in the statement); nothing else is normalised',
+    '(the three normalisations named in the statement); the only other tolerance: a rule condition text that differs in '
+    'blanks only AND whose AND/OR regrouping is a pure re-association (same truth table) is accepted',
     'names contain no blanks, ";" or EPANET rule keywords (the API asserts no blanks; controls are serialised as '
     'EPANET-style text)',
     'numeric values are finite floats (NaN != NaN would make dictionary equality meaningless); action/threshold '
     'values of controls are floats (an int 1 prints as "1" and returns as "1.0")',
-    'simple controls are the EPANET forms (AT TIME, AT CLOCKTIME, IF tank level / junction pressure ABOVE/BELOW); '
-    'rules use any relation, AND/OR nesting, ELSE and PRIORITY',
+    'simple controls are the EPANET forms (AT TIME, AT CLOCKTIME, IF tank level / junction pressure ABOVE/BELOW) built '
+    'with the public Control/SimTimeCondition/TimeOfDayCondition/ValueCondition classes; rules use any relation, '
+    'AND/OR nesting, ELSE and PRIORITY; tank conditions use inequalities only (TankLevelCondition refuses = and <>)',
+    'a fire-fighting demand is only added with a duration that covers it (with an empty horizon binary_pattern '
+    'returns an empty Pattern object, which is falsy, so that to_dict cannot even report its name)',
+    'only the dictionary is observed (as the statement says): e.g. pump.efficiency coming back as a plain dict '
+    'instead of a Curve is not visible to this check',
 ]
 TOLERANCES = {'equality': 'exact (Python floats survive repr/JSON exactly)'}
 LEVEL_TEXT = ('randomised search over model specs plus a fixed list of single-feature models; every public attribute '
@@ -675,9 +686,12 @@ def compare(d0, d1, rules=None):
                 kind = 'control.%s' % x.get('type')
                 cx, cy = x.get('condition'), y.get('condition')
                 if cx != cy and isinstance(cx, str) and isinstance(cy, str) and cx.split() == cy.split():
-                    out.append(('changed/%s.condition.grouping/%s'
-                                % (kind, _grouping_kind((rules or {}).get(x.get('name')))),
-                                'AND/OR grouping changed (visible as blanks): %r -> %r' % (cx, cy)))
+                    gk = _grouping_kind((rules or {}).get(x.get('name')))
+                    # the condition text differs in blanks only, which is how a regrouping of AND/OR shows; a pure
+                    # re-association (same truth table) is not held against the round trip
+                    if gk != 'equivalent':
+                        out.append(('changed/%s.condition.grouping/%s' % (kind, gk),
+                                    'AND/OR grouping changed (visible as blanks): %r -> %r' % (cx, cy)))
                     _cmp_fields(x, y, kind, out, skip=('condition',))
                 elif cx != cy and isinstance(cx, str) and isinstance(cy, str) and 'CLOCKTIME' in cx and \
                         len(cx.split()) == len(cy.split()) and \
@@ -813,7 +827,7 @@ def check(case):
     try:
         d0 = wntr.network.to_dict(wn)
     except Exception as e:
-        return fail(exc_bucket(e, 'raises/to_dict'), 'to_dict raised %r' % e, tags)
+        return fail(_raise_bucket(e).replace('raises/', 'raises/to_dict/', 1), 'to_dict raised %r' % e, tags)
     try:
         text = json.dumps(d0)
         d0j = json.loads(text)
@@ -870,7 +884,9 @@ def check(case):
 
     nontrivial = bool([t for t in tags if not t.startswith('names:')]) and len(text) > 0
     if found:
-        found.sort(key=lambda bd: (0 if '/raises' in bd[0] or bd[0].startswith('raises') else 1, bd[0]))
+        # exceptions first; the regrouping bucket (a recorded open finding) last so that it never masks another bucket
+        found.sort(key=lambda bd: (2 if 'condition.grouping' in bd[0] else
+                                   0 if '/raises' in bd[0] or bd[0].startswith('raises') else 1, bd[0]))
         bucket, detail = found[0]
         more = [b for b, _ in found[1:]]
         return fail(bucket, detail + (' | other buckets in this case: %s' % more if more else ''),
